@@ -50,21 +50,21 @@ VH_GROUP(ops1d)
 VH_GROUP(ops2d)
 {
     std::vector<Key<2>> keys; for (long a : {0L, 1L, 2L}) for (long b : {0L, 1L, 2L}) keys.push_back(Key<2>{{a, b}});
-    std::vector<double> st = {-1, 1, 2, 0};
+    std::vector<double> st = {-1, 1, 0.5, 2, 0};      // bins hold doubles: a non-integral count (as after normalize()) is in the alphabet
     st.resize(size_t(ctx.B("S", 3)));
     ops_grid<gil::histogram<int, int>, 2>(ctx, "ops2d", keys, st);
 }
 VH_GROUP(ops3d)
 {
     std::vector<Key<3>> keys; for (long a : {0L, 1L}) for (long b : {0L, 1L}) for (long c : {0L, 2L}) keys.push_back(Key<3>{{a, b, c}});
-    std::vector<double> st = {-1, 1, 2, 0};
+    std::vector<double> st = {-1, 1, 0.5, 2, 0};      // bins hold doubles: a non-integral count (as after normalize()) is in the alphabet
     st.resize(size_t(ctx.B("S", 3)));
     ops_grid<gil::histogram<int, int, int>, 3>(ctx, "ops3d", keys, st);
 }
 VH_GROUP(ops4d)
 {
     std::vector<Key<4>> keys; for (long a : {0L, 1L}) for (long b : {1L, 2L}) for (long c : {0L}) for (long d : {0L, 2L}) keys.push_back(Key<4>{{a, b, c, d}});
-    std::vector<double> st = {-1, 1, 2, 0};
+    std::vector<double> st = {-1, 1, 0.5, 2, 0};      // bins hold doubles: a non-integral count (as after normalize()) is in the alphabet
     st.resize(size_t(ctx.B("S", 3)));
     ops_grid<gil::histogram<int, short, long, int>, 4>(ctx, "ops4d", keys, st);
 }
